@@ -72,6 +72,31 @@ def _run_base(ctx):
         """expr maps 'some conflicted' -> non-zero and 'none' -> 0 ?"""
         if isinstance(expr, ast.Name):
             vs = defs.get(expr.id, [])
+            if len(vs) == 2 and all(isinstance(const_val(v), int) and not isinstance(const_val(v), bool) and k == 'assign' for v, k, s in vs):
+                # statement form of `1 if conflicted else 0`: the two constants are assigned in the two arms of one `if`
+                # whose test is the conflict verdict
+                par = [repo.parent(s) for v, k, s in vs]
+                if par[0] is par[1] and isinstance(par[0], ast.If):
+                    node = par[0]
+                    arm = [('body' if s in node.body else 'orelse' if s in node.orelse else None) for v, k, s in vs]
+                    if set(arm) == {'body', 'orelse'}:
+                        val = {a: const_val(v) for a, (v, k, s) in zip(arm, vs)}
+                        test, b, o = node.test, val['body'], val['orelse']
+                        while isinstance(test, ast.UnaryOp) and isinstance(test.op, ast.Not):
+                            test, b, o = test.operand, o, b
+                        return depends_on(mm, test, conflict_filter, defs) is not None and 0 < b < 256 and o == 0
+                # default-then-override form: `rc = 0` ... `if conflicted: rc = 1`
+                for (v1, k1, s1), (v2, k2, s2) in (vs, vs[::-1]):
+                    node = repo.parent(s2)
+                    if isinstance(node, ast.If) and s2 in node.body and not any(s1 is x for b in (node.body, node.orelse) for st in b for x in ast.walk(st)) \
+                            and g.dominated_by(node, [s1]):
+                        test, pos = node.test, True
+                        while isinstance(test, ast.UnaryOp) and isinstance(test.op, ast.Not):
+                            test, pos = test.operand, not pos
+                        d, o = const_val(v1), const_val(v2)
+                        if depends_on(mm, test, conflict_filter, defs) is not None:
+                            return (pos and d == 0 and 0 < o < 256) or (not pos and o == 0 and 0 < d < 256)
+                return False
             return len(vs) >= 1 and all(status_form(v) for v, k, s in vs)
         if isinstance(expr, ast.IfExp):
             b, o = const_val(expr.body), const_val(expr.orelse)
